@@ -152,6 +152,7 @@ META["C15"] = dict(
 )
 HOOK_COMMITS.append("f09a637")
 HOOK_COMMITS.append("2336b91")
+HOOK_COMMITS.append("8060690")
 
 META["C14"] = dict(
     engine="lang",
